@@ -242,6 +242,13 @@ func commentText(r *RNG, enc string, light bool) []byte {
 			b = append(b, c.U...)
 		}
 	}
+	if n == 13 {
+		// the comment ends with an escape sequence that means something to *another* decoder (ISO-2022-JP
+		// kanji-in / ASCII-in, a JIS X 0212 designator, shift-out, an ANSI colour, HZ), with an odd or even number
+		// of bytes after it; chosen from values already drawn, so that no other scenario of a seed changes
+		esc := []string{"\x1b$B", "\x1b$Bk", "\x1b$@", "\x1b$@q", "\x1b(B", "\x1b(J", "\x1b$(D", "\x1b[31m", "\x0e", "~{", "\x1b$B\x1b(B", "\x1b$Bab"}
+		b = append(b, esc[len(b)%len(esc)]...)
+	}
 	return b
 }
 
